@@ -221,6 +221,14 @@ def negate_literal(lit):
 def expr_literal(e: ast.expr, res: Resolver):
     """Literal(s) for an atomic boolean expression, as a list of alternatives in AND form:
     returns ('and', [lits]) or ('lit', lit)."""
+    if isinstance(e, ast.Compare) and len(e.ops) == 1:
+        # emptiness tests in all their spellings are one literal: truthy(X)
+        t = _emptiness(e.left, e.ops[0], e.comparators[0])
+        if t is not None:
+            subj, nonempty = t
+            return ('lit', ('truthy', _subject(subj, res), nonempty))
+    if isinstance(e, ast.Call) and isinstance(e.func, ast.Name) and e.func.id == 'bool' and len(e.args) == 1 and not e.keywords:
+        return expr_literal(e.args[0], res)
     if isinstance(e, ast.Compare):
         lits = []
         left = e.left
@@ -252,6 +260,39 @@ def expr_literal(e: ast.expr, res: Resolver):
     if isinstance(e, ast.Call):
         return ('lit', ('call', _subject(e, res), True))
     return ('lit', ('truthy', _subject(e, res), True))
+
+
+def _emptiness(left, op, right):
+    """(subject, True) for "subject is not empty", (subject, False) for "is empty"; None if the comparison is something else."""
+    def is_len(x):
+        return isinstance(x, ast.Call) and isinstance(x.func, ast.Name) and x.func.id == 'len' and len(x.args) == 1
+
+    def const(x, v):
+        return isinstance(x, ast.Constant) and type(x.value) is type(v) and x.value == v
+    flip = {ast.Gt: ast.Lt, ast.Lt: ast.Gt, ast.GtE: ast.LtE, ast.LtE: ast.GtE, ast.Eq: ast.Eq, ast.NotEq: ast.NotEq}
+    if type(op) not in flip:
+        return None
+    if not is_len(left) and is_len(right):
+        left, right, op = right, left, flip[type(op)]()
+    if is_len(left):
+        x = left.args[0]
+        if const(right, 0):
+            if isinstance(op, (ast.Gt, ast.NotEq)):
+                return x, True
+            if isinstance(op, (ast.Eq, ast.LtE)):
+                return x, False
+        if const(right, 1):
+            if isinstance(op, ast.GtE):
+                return x, True
+            if isinstance(op, ast.Lt):
+                return x, False
+        return None
+    # comparison with the empty string
+    if const(left, '') and not const(right, ''):
+        left, right = right, left
+    if const(right, '') and isinstance(op, (ast.Eq, ast.NotEq)):
+        return left, isinstance(op, ast.NotEq)
+    return None
 
 
 def _is_nonnumeric(e: ast.expr) -> bool:
